@@ -230,7 +230,7 @@ PROPS["C03"] = {
 }
 PROPS["C19"] = {
     "level": "model_checking",
-    "files": ["src/sequence/model.rs", "src/common/sequence_utils.rs", "src/sequence/mod.rs", "src/config/core.rs"],
+    "files": ["src/sequence/model.rs", "src/common/sequence_utils.rs", "src/sequence/mod.rs", "src/sequence/core.rs", "src/config/core.rs"],
     "kani": [
         H("c19", "k19_1_seqgroup_fifo", "every schedule of <=9 steps over {GetNextId, FillRange delivery, fetch completion in issue order}; step 1..=2; <=4 fetches",
           ["SeqGroup::{next_id,apply_range,need_apply,mark_apply,clear_apply_mark}", "SeqRange::{next_id,renew,has_next}"], t_quick=900),
@@ -247,7 +247,7 @@ PROPS["C19"] = {
         "(harness k19_1_seqgroup_any_order, kept in the source, not registered) but it is an assumption about the transport that cannot be replayed against real code",
         "config history ids: a publish is issued by the leader, committed, and applied on both replicas before the next step; leadership moves only between such steps",
     ],
-    "outside": "SequenceDbManager (HashMap state) and ConfigActor::set_config itself (HashMap state: out of Kani's reach, see DESIGN.md); cross-node ordering of sequence-service ids",
+    "outside": "the SequenceManager actor's per-key caches on top of SeqGroup (K19.1 drives SeqGroup by its protocol); the raft transport between a node and the leader's table",
 }
 PROPS["C05"] = {
     "level": "model_checking",
@@ -281,8 +281,29 @@ def _c09(tier, seed):
 
 
 def _c19_smt(tier, seed):
-    from rs2smt import c09
-    return c09.run(tier, seed, only_c19=True)
+    import os
+    from rs2smt import c09, c19seq
+    from rs2smt.common import native_scenarios
+    res = c09.run(tier, seed, only_c19=True)
+    ob = c19seq.run(tier, seed)
+    if not os.environ.get("VERIF_NO_NATIVE"):
+        if ob.get("verdict") == "violation" and (ob.get("counterexample") or {}).get("ops"):
+            rr = native_scenarios("C19", "violation", ["sequence_table_history"], ob["message"], {"obligation": ob["harness"], "model": ob.get("counterexample"), "ops": ob["counterexample"]["ops"]})
+            ob["replay_path"] = rr["path"]
+            ob["replay"] = {"path": rr["path"], "outcome": rr["outcome"], "message": rr["message"]}
+            if rr["outcome"] != "reproduced":
+                ob.update({"verdict": "inconclusive", "message": "engine-S counterexample (%s) did not reproduce on a real SequenceDbManager actor (%s %s)" % (ob["message"], rr["outcome"], rr["message"])})
+            else:
+                ob["message"] = "%s [real SequenceDbManager actor: %s]" % (ob["message"], rr["message"][:300])
+        elif ob.get("verdict") == "discharged":
+            sample = [{"op": "range", "key": "ka", "step": 100}, {"op": "next", "key": "ka"}, {"op": "restart"}, {"op": "range", "key": "ka", "step": 7}, {"op": "next", "key": "kb"},
+                      {"op": "set", "key": "kb", "value": 50}, {"op": "next", "key": "kb"}, {"op": "restart"}, {"op": "next", "key": "kb"}, {"op": "next", "key": "ka"}]
+            nv = native_scenarios("C19", "validate", ["sequence_table_history"], "", {"ops": sample})
+            res.setdefault("info", {})["translator_validation_sequence_table"] = {"outcome": nv["outcome"], "message": nv["message"], "path": nv["path"]}
+            if nv["outcome"] != "passed":
+                ob.update({"verdict": "inconclusive", "message": "the obligation is discharged but a real SequenceDbManager actor breaks it on a sampled history: %s" % nv["message"]})
+    res["obligations"].append(ob)
+    return res
 
 
 PROPS["C09"] = {
@@ -301,6 +322,8 @@ PROPS["C09"] = {
     "explanation": "bounded symbolic execution of the config store's real source with arbitrary string contents",
 }
 PROPS["C19"]["smt"] = _c19_smt
+PROPS["C19"]["assumptions"].append("s19_6: SequenceDbManager's handlers (NextId, NextRange, SetId, RemoveId, snapshot build / load) from source over every history of 4 (thorough: 5) committed requests on two keys, "
+                                   "steps symbolic in 1..2^32; id_to_bin / bin_to_id_result the identity (k05_2_id_bin); requests of several nodes are one committed sequence (raft orders them)")
 PROPS["C19"]["assumptions"].append("s19_5: ConfigActor::set_config is evaluated from its source (rs2smt) over every history of 3 operations; a publish carrying a history table id must leave "
                                    "the replica's SimpleSequence at or above that id")
 
